@@ -79,13 +79,30 @@ def gen_cases(rng, tier):
             elif r < 0.45: steps.append({'op': 'str', 's': rng.choice(pool_s) if rng.random() < 0.8 else pool_s[i % K], 'cls': rng.choice(CLASSES), 'mutate': rng.random() < 0.3})
             elif r < 0.65: steps.append({'op': 'fmt', 'f': rng.choice(pool_f)})
             elif r < 0.85: steps.append({'op': 'dtype', 'd': rng.choice(pool_d)})
-            elif r < 0.89: steps.append({'op': 'pack', 'f': rng.choice(['uint:8, hex', 'e4m3mxfp, uint:4', 'ue, se', 'float:32']), 'v': rng.choice([1, 300, 500.0])})
+            elif r < 0.885: steps.append({'op': 'pack', 'f': rng.choice(['uint:8, hex', 'e4m3mxfp, uint:4', 'ue, se', 'float:32']), 'v': rng.choice([1, 300, 500.0])})
+            elif r < 0.905:
+                # a cached literal as the LEFT operand of + with an empty object: the sum must own its store (it is mutated afterwards)
+                steps.append({'op': 'str_radd', 's': rng.choice(pool_s) if rng.random() < 0.7 else pool_s[i % K], 'cls': rng.choice(CLASSES), 'how': rng.choice(['radd_empty', 'radd_empty', 'add_empty', 'join', 'pack_bits'])})
             elif r < 0.93:
+                # auto-scaled Arrays of the small float formats: the lazily built table of largest values must not remember the mxfp_overflow of its first use
+                steps.append({'op': 'autoscale', 'fmt': rng.choice(['e4m3mxfp', 'e5m2mxfp', 'e4m3mxfp', 'e5m2mxfp', 'e3m2mxfp', 'e2m3mxfp', 'e2m1mxfp', 'p4binary', 'p3binary', 'mxint', 'float16', 'bfloat']),
+                              'vals': rng.choice([[0.0, 96.0, 256.0, -144.0], [1e-3, 2e-3], [1e5, -3e5, 7.0], [0.5]])})
+            elif r < 0.945:
                 # list formats (each item is parsed, and cached, on its own) mixed with the same items used alone, and unpack / readlist
                 items = ['uint:8', 'hex:8', 'int:4=-3', 'oct:6=17', 'bin:3', 'uint:w', '2*uint:4']
                 k = rng.choice([1, 1, 2, 3])
                 steps.append({'op': 'packlist', 'f': [rng.choice(items) for _ in range(k)], 'how': rng.choice(['pack', 'pack', 'unpack', 'readlist'])})
             else: steps.append({'op': 'find', 'bits': rand_bits(rng, 24), 'pat': rand_bits(rng, 8)})
+        if h == 0:
+            # first use of every lazily initialised table under the NON-default option values, then the default ones again
+            pre = [{'op': 'set', 'opt': 'mxfp_overflow', 'v': True}, {'op': 'set', 'opt': 'lsb0', 'v': True}, {'op': 'set', 'opt': 'bytealigned', 'v': True},
+                   {'op': 'autoscale', 'fmt': 'e3m2mxfp', 'vals': [0.0, 96.0, 256.0, -144.0]},
+                   {'op': 'str', 's': 'e4m3mxfp=1000.0', 'cls': 'Bits', 'mutate': False}, {'op': 'dtype', 'd': ['e5m2mxfp', None, None]},
+                   {'op': 'find', 'bits': '000000001111000011110000', 'pat': '11110000'},
+                   {'op': 'set', 'opt': 'mxfp_overflow', 'v': False}, {'op': 'set', 'opt': 'lsb0', 'v': False}, {'op': 'set', 'opt': 'bytealigned', 'v': False},
+                   {'op': 'autoscale', 'fmt': 'e4m3mxfp', 'vals': [0.0, 96.0, 256.0, -144.0]}, {'op': 'autoscale', 'fmt': 'e5m2mxfp', 'vals': [0.0, 96.0, 256.0, -144.0]},
+                   {'op': 'str', 's': 'e4m3mxfp=1000.0', 'cls': 'Bits', 'mutate': False}, {'op': 'find', 'bits': '000000001111000011110000', 'pat': '11110000'}]
+            steps = pre + steps
         yield {'op': 'history', 'steps': steps}
 
 def kind(c): return 'history'
@@ -114,6 +131,20 @@ def do_call(st):
     if op == 'pack':
         n = st['f'].count(',') + 1
         return pack(st['f'], *([st['v']] * n)).bin
+    if op == 'str_radd':
+        C = cls_of(st['cls'])
+        if st['how'] == 'radd_empty': o = st['s'] + C()
+        elif st['how'] == 'add_empty': o = C() + st['s']
+        elif st['how'] == 'join': o = C().join([st['s']])
+        else: o = pack('bits', st['s'])
+        r = [type(o).__name__, o.bin]
+        if isinstance(o, bitstring.BitArray):
+            o.append('0b1'); o.invert(); o.prepend('0b0')
+        return r + [Bits(st['s']).bin]
+    if op == 'autoscale':
+        from bitstring import Array
+        a = Array(Dtype(st['fmt'], scale='auto'), st['vals'])
+        return [repr(a.dtype.scale), [x.hex() if isinstance(x, float) and x == x else repr(x) for x in a.tolist()]]
     if op == 'packlist':
         f = st['f']; fmt = f if len(f) > 1 else f[0]
         if st['how'] == 'pack':
@@ -139,6 +170,7 @@ def run_impl(c):
     clear_caches()
     opts = {'lsb0': False, 'bytealigned': False, 'mxfp_overflow': False}
     warm, snaps = [], []
+    diffs0 = []
     # log option reads during each call
     reads_log = set()
     O = type(bitstring.options)
@@ -154,10 +186,14 @@ def run_impl(c):
             if st['op'] == 'set':
                 opts[st['opt']] = st['v']; set_opts(opts); warm.append(('ok', None)); snaps.append(dict(opts)); continue
             warm.append(attempt(lambda: do_call(st))); snaps.append(dict(opts))
+            w = warm[-1]
+            if st['op'] == 'str_radd' and w[0] == 'ok' and w[1][1] != w[1][2] and len(diffs0) < 3:
+                # the sum of a literal and an empty object holds the literal's bits; parsing the literal again after the sum was mutated must still give them
+                diffs0.append([len(warm) - 1, st, list(w), ['ok', [w[1][0], w[1][1], w[1][1]]], dict(opts)])
     finally:
         for n, p in saved.items(): setattr(O, n, p)
     cold = []
-    diffs = []
+    diffs = list(diffs0)
     for i, (st, o) in enumerate(zip(c['steps'], snaps)):
         if st['op'] == 'set': continue
         clear_caches(); set_opts(o)
